@@ -2,6 +2,7 @@
 from __future__ import annotations
 
 import ast
+import re
 
 from .. import lang as L
 from .. import spec as S
@@ -143,7 +144,7 @@ def _python_values(ctx, entries):
                               file=FJ, line=e.node.lineno, engine='E1')
         if e.pred == 'pytype' and 'dict' in e.pytypes:
             t = '\n'.join(norm(x) for x in e.node.body)
-            if "{'meta', 'cols', 'rows'} <= %s.keys()" % 'scalar' in t and 'parse_grid(scalar)' in t:
+            if "{'meta', 'cols', 'rows'} <= %s.keys()" % 'scalar' in t and re.search(r'\b_?parse_grid\(scalar\)', t):
                 ctx.ob('C05.D1', 'an object with meta, cols and rows is decoded as a nested grid', True,
                        '%s:%d' % (FJ, e.node.lineno))
             else:
@@ -170,38 +171,37 @@ def _structure(ctx):
     except AnalysisError as e:
         ctx.error('C05.D2', str(e))
         return
-    heads = ['for %s in %s' % (norm(x.target), norm(x.iter)) for x in walk_no_nested(pg) if isinstance(x, ast.For)]
-    if "for row in parsed.pop('rows', []) or []" in heads:
-        ctx.ob('C05.D2', 'missing or null `rows` is an empty grid', True, '%s:%d' % (FJ, pg.lineno))
-    else:
-        rows_loops = [h for h in heads if 'rows' in h]
-        ctx.violation('C05.D2', '%s::parse_grid' % FJ, '; '.join(rows_loops),
-                      'a grid object without "rows" (or with "rows": null) raises KeyError/TypeError',
-                      'rows is not read with a default and `or []`', file=FJ, line=pg.lineno, engine='E9')
-    if 'for (col, value) in row.items()' in heads:
-        ctx.ob('C05.D2', 'rows are iterated over their own keys (omitted columns are fine)', True, '%s:%d' % (FJ, pg.lineno))
-    else:
-        ctx.violation('C05.D2', '%s::parse_grid' % FJ, '; '.join(heads), 'a row that omits a column raises KeyError',
-                      'rows are not iterated over their own keys', file=FJ, line=pg.lineno, engine='E9')
+    from .. import match
+    fns = [f_ for f_ in match.with_local_callees(m, 'jsonparser', pg) if f_.name not in ('parse_embedded_scalar', 'parse_scalar')]
+    sc = match.Script(ctx, 'C05.D2', fns, FJ, '%s::parse_grid' % FJ)
+    sc.need(["for _R_row in _R_parsed.pop('rows', []) or []:\n    pass"], 'missing or null `rows` is an empty grid',
+            'a grid object without "rows" (or with "rows": null) raises KeyError/TypeError',
+            bad=["for _R_row in _R_parsed.pop('rows'):\n    pass", "for _R_row in _R_parsed['rows']:\n    pass",
+                 "for _R_row in _R_parsed.pop('rows', []):\n    pass", "for _R_row in _R_parsed.get('rows'):\n    pass",
+                 "for _R_row in _R_parsed.get('rows', []):\n    pass"])
+    sc.need(['for (_R_rcol, _R_rvalue) in _R_row.items():\n    pass'],
+            'rows are iterated over their own keys (omitted columns are fine)', 'a row that omits a column raises KeyError')
+    sc.need(["_R_cname = _R_col.pop('name')", "_R_cname = _R_col['name']"], 'columns are identified by cols[].name',
+            'columns are not named by their `name` key')
     # parser.parse: dict -> [dict]; str -> json.loads; single/None/list
     try:
         pp = m.func('parser', 'parse')
     except AnalysisError as e:
         ctx.error('C05.D2', str(e))
         return
+    FPp = 'hszinc/parser.py'
+    sp = match.Script(ctx, 'C05.D2', [pp], FPp, '%s::parse' % FPp)
+    sp.need(['_R_text = _R_text.decode(encoding=_R_charset)', '_R_text = _R_text.decode(_R_charset)'],
+            'bytes input is decoded with the given charset', 'parse(b"...", mode=MODE_JSON, charset=...) fails or mis-decodes')
+    sp.need(['_R_data = json.loads(_R_text)'], 'text input is decoded with json.loads', 'a JSON text is not decoded')
+    sp.need(['_R_data = [_R_data]'], 'a single grid object is normalised to a one-element list',
+            'a single grid object is iterated key by key')
+    sp.need(['_R_grids = list(map(_R_parse, _R_data))', '_R_grids = [_R_parse(_R_g) for _R_g in _R_data]'],
+            'every grid of the document is parsed, in order', 'only some grids of an array are parsed')
     t = norm(pp)
-    facts = [
-        ('grid_data = json.loads(grid_str)', 'text input is decoded with json.loads'),
-        ('if isinstance(grid_data, dict):\n            grid_data = [grid_data]', 'a single grid object is normalised to a one-element list'),
-        ('grid_str = grid_str.decode(encoding=charset)', 'bytes input is decoded with the given charset'),
-        ('grids = list(map(_parse, grid_data))', 'every grid of the document is parsed'),
-    ]
-    for text, what in facts:
-        if text in t:
-            ctx.ob('C05.D2', what, True, 'hszinc/parser.py:%d' % pp.lineno)
-        else:
-            ctx.violation('C05.D2', 'hszinc/parser.py::parse', text, 'JSON input in one of the accepted forms is not parsed',
-                          'missing: %s' % what, file='hszinc/parser.py', line=pp.lineno, engine='E9')
+    if 'if isinstance(grid_data, dict):' in t or any(isinstance(n, ast.If) and 'dict' in norm(n.test) and 'isinstance' in norm(n.test)
+                                                     for n in walk_no_nested(pp)):
+        ctx.ob('C05.D2', 'the one-element normalisation is applied to dict input only', True, '%s:%d' % (FPp, pp.lineno))
 
 
 def _freshness(ctx):
@@ -209,7 +209,55 @@ def _freshness(ctx):
     m = ctx.model
     mod = m.mod('jsonparser')
     n_sites = 0
-    for fn in [n for n in ast.walk(mod.tree) if isinstance(n, ast.FunctionDef)]:
+    all_fns = [n for n in ast.walk(mod.tree) if isinstance(n, ast.FunctionDef)]
+    PUBLIC = {'parse_grid', 'parse_scalar', 'parse_embedded_scalar'}
+    fresh_memo = {}
+
+    def param_fresh(callee, pname):
+        """a parameter of a module-private helper is private data iff every call site passes private data"""
+        key = (callee.name, pname)
+        if key in fresh_memo:
+            return fresh_memo[key]
+        fresh_memo[key] = False
+        if callee.name in PUBLIC or not callee.name.startswith('_'):
+            return False
+        idx = [a.arg for a in callee.args.args].index(pname)
+        sites = []
+        for caller in all_fns:
+            for n in walk_no_nested(caller):
+                if isinstance(n, ast.Call) and isinstance(n.func, ast.Name) and n.func.id == callee.name:
+                    sites.append((caller, n))
+        if not sites:
+            return False
+        ok = True
+        for caller, call in sites:
+            arg = call.args[idx] if len(call.args) > idx else None
+            if arg is None:
+                ok = False
+                break
+            if not _deep_in(caller, arg):
+                ok = False
+                bad_sites.append((callee.name, caller.name, call))
+                break
+        fresh_memo[key] = ok
+        return ok
+
+    bad_sites = []
+
+    def _deep_in(caller, expr):
+        # freshness of an expression in the context of another function: only direct forms
+        if isinstance(expr, ast.Call) and norm(expr.func) in ('json.loads', 'copy.deepcopy'):
+            return True
+        if isinstance(expr, ast.Name):
+            cparams = {a.arg for a in caller.args.args}
+            if expr.id in cparams:
+                return False
+            defs = [n.value for n in walk_no_nested(caller) if isinstance(n, ast.Assign) and len(n.targets) == 1
+                    and isinstance(n.targets[0], ast.Name) and n.targets[0].id == expr.id]
+            return bool(defs) and all(isinstance(d, ast.Call) and norm(d.func) in ('json.loads', 'copy.deepcopy') for d in defs)
+        return False
+
+    for fn in all_fns:
         params = {a.arg for a in fn.args.args}
         fresh = set()
         tainted = set(params)      # names that may alias caller-owned objects
@@ -255,7 +303,7 @@ def _freshness(ctx):
                 return False
             if isinstance(e, ast.Name):
                 if e.id in params:
-                    return False
+                    return param_fresh(fn, e.id)
                 srcs = origin.get(e.id)
                 if not srcs:
                     return False
@@ -314,7 +362,9 @@ def _freshness(ctx):
                               '%s %s on `%s`, which may be (part of) the caller\'s own object: it is neither the result of '
                               'json.loads/copy.deepcopy nor derived from one' % (fn.name, what, norm(target)), file=FJ,
                               line=n.lineno, engine='E7',
-                              path=['hszinc.parse(obj)', 'parser.parse_grid', 'jsonparser.%s' % fn.name])
+                              path=['hszinc.parse(obj)', 'parser.parse_grid'] + ['jsonparser.%s -> %s (%s)' % (c_, f_, norm(n_)[:60])
+                                                                                   for f_, c_, n_ in bad_sites[:2]] +
+                                   ['jsonparser.%s' % fn.name])
     ctx.count('destructive call sites in jsonparser', n_sites)
     ctx.floor('destructive call sites in jsonparser', n_sites, 6)
     # parser.parse must not mutate grid_str / grid_data itself
